@@ -96,7 +96,11 @@ def base_env(extra=None, backtrace="0"):
     return env
 
 
+TIMEOUT_SCALE = 1.0      # raised while a violation is being confirmed: a time-out on a busy machine must not pass for a hang
+
+
 def run(args, cwd, env=None, timeout=TIMEOUT, binary=None, stdin=None, merge=False):
+    timeout = timeout * TIMEOUT_SCALE
     """Run `mscript <args>` in cwd."""
     cmd = [binary or build.BIN] + list(args)
     try:
